@@ -54,7 +54,7 @@ func cmdUniverse() {
 		variants[f] = v
 	}
 	json.NewEncoder(os.Stdout).Encode(map[string]interface{}{"sizes": sizes, "variants": variants, "casemul": CaseMul,
-		"payloads": NPayloads, "tr": map[string]interface{}{"V": []int{idxInt(uniV, trVFrom), idxInt(uniV, trVTo)}, "W": []int{caseLower.encode(trWFrom), caseLower.encode(trWTo)}},
+		"payloads": NPayloads, "tr": map[string]interface{}{"V": trVCodes()[0], "W": []int{caseLower.encode(trWFrom), caseLower.encode(trWTo)}},
 		"inv":   map[string]interface{}{"V": idxInt(uniV, invV), "W": caseLower.encode(invW)},
 		"zero":  map[string]int{"K": zeroCode("K"), "A": zeroCode("A"), "U": 0, "F": zeroCode("F"), "E": zeroCode("E"), "PX": zeroCode("PX"), "V": zeroCode("V"), "S": zeroCode("S"), "W": zeroCode("W"), "N": zeroCode("N"), "PY": zeroCode("PY"), "Z": 0, "T": 3},
 		"k2p53": idxI64(uniK, 1<<53)})
